@@ -4,7 +4,7 @@ import os
 
 import engine
 
-C20_CL = ("repr_raises", "footer", "footer_dtype", "preview_rows", "preview_cols", "header_names", "operands_unchanged")
+C20_CL = ("repr_data", "repr_raises", "footer", "footer_dtype", "preview_rows", "preview_cols", "header_names", "operands_unchanged")
 
 
 def gen(rep, tier, clauses=C20_CL):
